@@ -435,14 +435,14 @@ def r16h(ctx):
 
 
 def run(ctx):
-    r16a(ctx)
-    r16b(ctx)
-    r16c(ctx)
-    r16d(ctx)
-    r16e(ctx)
-    r16f(ctx)
-    r16g(ctx)
-    r16h(ctx)
+    ctx.guard(r16a)
+    ctx.guard(r16b)
+    ctx.guard(r16c)
+    ctx.guard(r16d)
+    ctx.guard(r16e)
+    ctx.guard(r16f)
+    ctx.guard(r16g)
+    ctx.guard(r16h)
 
 
 SELFTEST = {
